@@ -102,6 +102,25 @@ fn run_case<H: Hasher>(hname: &str, trees: &mut BTreeMap<usize, MerkleTree<H>>, 
             Ok(r) if r == root => {},
             _ => bad.push(("honest-root".into(), "get_root does not return the tree root".into())),
         }
+        // the opening survives its wire form (node vectors as bytes, leaves and depth handed back): what every query set of a proof goes through
+        {
+            let bytes = proof.serialize_nodes();
+            let mut rd = winter_utils::SliceReader::new(&bytes);
+            match BatchMerkleProof::<H>::deserialize(&mut rd, proof.leaves.clone(), proof.depth) {
+                Ok(back) => {
+                    if !same(&back, &proof) {
+                        bad.push(("wire-differs".into(), "deserialize(serialize_nodes(opening)) is a different opening".into()));
+                    }
+                    if winter_utils::ByteReader::has_more_bytes(&rd) {
+                        bad.push(("wire-leftover".into(), "deserialize does not consume the bytes serialize_nodes wrote".into()));
+                    }
+                    if MerkleTree::<H>::verify_batch(&root, &c.ps, &back).is_err() {
+                        bad.push(("wire-rejected".into(), "the opening read back from its wire form is rejected".into()));
+                    }
+                },
+                Err(e) => bad.push(("wire-error".into(), format!("the honest opening of {} positions cannot be read back from its wire form: {e}", c.ps.len()))),
+            }
+        }
         let paths: Vec<Vec<H::Digest>> = c.ps.iter().map(|&p| tree.prove(p).unwrap()).collect();
         for (p, path) in c.ps.iter().zip(paths.iter()) {
             if MerkleTree::<H>::verify(root, *p, path).is_err() {
